@@ -71,6 +71,7 @@ type simPC struct {
 	readErr chan error // injected read error
 	quiet   bool       // do not log open/close (client and peer sockets)
 	closeErr bool      // Close releases the socket and then REPORTS an error (a wrapped or instrumented socket may)
+	shortErr bool      // a datagram longer than the reader's buffer is cut AND reported as io.ErrShortBuffer (pion vnet; Windows: WSAEMSGSIZE)
 }
 
 func (n *simNet) listenUDP(ip net.IP, port int, quiet bool) (*simPC, error) {
@@ -96,6 +97,9 @@ func (n *simNet) listenUDP(ip net.IP, port int, quiet bool) (*simPC, error) {
 func (p *simPC) ReadFrom(b []byte) (int, net.Addr, error) {
 	select {
 	case d := <-p.ch:
+		if p.shortErr && len(d.data) > len(b) {
+			return copy(b, d.data), d.from, io.ErrShortBuffer
+		}
 		return copy(b, d.data), d.from, nil // truncates like the kernel does
 	case err := <-p.readErr:
 		return 0, nil, err
